@@ -116,6 +116,14 @@ mutant("m18j", "C18", "asmjit/core/string.cpp", "  if (self_offset != SIZE_MAX) 
 mutant("m04g", "C04", "asmjit/core/codeholder.cpp", "      err = make_error(Error::kInvalidDisplacement);\n    }\n\n    it.next();", "    }\n\n    it.next();", "revert fix: an unencodable cross-section displacement is not reported")
 mutant("m14r", "C14", "asmjit/core/builder.cpp", "  Error err = label_node_of(Out(node), label);\n\n  if (ASMJIT_UNLIKELY(err != Error::kOk)) {\n    return report_error(err);\n  }\n", "  ASMJIT_PROPAGATE(label_node_of(Out(node), label));\n", "revert fix: Builder::bind() of an invalid label bypasses the error handler")
 
+# ---- round 12 (oracles / workload added after independently written changes were missed) -------------------------
+mutant("m09s", "C09", J, "      _largest_unused_area += shrunk_area_size;\n\n      // If the block was full `_search_end` was zeroed, so make sure the search range covers the released area.\n      _search_end = Support::max(_search_end, shrunk_area_end);\n",
+       "      _largest_unused_area += shrunk_area_size;\n", "shrinking the last span of a full incremental block leaves the search window closed (tail never found again)")
+mutant("m04h", "C04", "asmjit/core/emitterutils_p.h", "return base_address != Globals::kNoBaseAddress && section_offset != Globals::kNoSectionOffset;", "(void)section_offset; return base_address != Globals::kNoBaseAddress;",
+       "a location counts as absolute as soon as the base is known, even in a section whose offset is not assigned yet")
+mutant("m14s", "C14", "asmjit/core/assembler.cpp", "  reset_inline_comment();\n  if (err != Error::kOk) {\n    return report_error(err);\n  }\n\n  return Error::kOk;\n}\n\n// BaseAssembler - Embed",
+       "  if (err != Error::kOk) {\n    return report_error(err);\n  }\n  reset_inline_comment();\n\n  return Error::kOk;\n}\n\n// BaseAssembler - Embed", "a refused Assembler::bind() keeps the pending inline comment")
+
 def run(cmd, env=None, timeout=3600):
     e = dict(os.environ); e.update(env or {})
     t0 = time.time()
